@@ -114,7 +114,9 @@ class PhasePredictor(QTable):
             raise ValueError("Some timestamps outside predictor range!")
 
         span_ends = self["tmid"] + self["span"] / 2
-        index = np.searchsorted(span_ends.mjd, times.mjd)
+        order = np.argsort(span_ends.mjd)
+        times_mjd = getattr(times, span_ends.scale).mjd
+        index = order[np.searchsorted(span_ends.mjd, times_mjd, sorter=order)]
         dt = (times - self["tmid"][index]).to_value(u.s)
         return index, dt
 
